@@ -19,12 +19,17 @@ namespace ExpressionHelpers {
 // 算術演算（+, -, *, /, %）の評価
 int64_t evaluate_arithmetic_binary(const std::string &op, int64_t left,
                                    int64_t right) {
+    // + - * wrap around in two's complement (computed in uint64_t: signed
+    // overflow is undefined behaviour in C++)
     if (op == "+") {
-        return left + right;
+        return static_cast<int64_t>(static_cast<uint64_t>(left) +
+                                    static_cast<uint64_t>(right));
     } else if (op == "-") {
-        return left - right;
+        return static_cast<int64_t>(static_cast<uint64_t>(left) -
+                                    static_cast<uint64_t>(right));
     } else if (op == "*") {
-        return left * right;
+        return static_cast<int64_t>(static_cast<uint64_t>(left) *
+                                    static_cast<uint64_t>(right));
     } else if (op == "/") {
         if (right == 0) {
             error_msg(DebugMsgId::ZERO_DIVISION_ERROR);
@@ -191,7 +196,7 @@ int64_t evaluate_simple_unary(const std::string &op, int64_t operand) {
     if (op == "+") {
         return operand;
     } else if (op == "-") {
-        return -operand;
+        return static_cast<int64_t>(0 - static_cast<uint64_t>(operand));
     } else if (op == "!") {
         return operand ? 0 : 1;
     } else if (op == "~") {
